@@ -310,6 +310,13 @@ class PathEnd(Exception):
     pass
 
 
+class LoopCut(BaseException):
+    """raised by a loop controller after ONE iteration from an arbitrary (havocked) state: carries the state reached"""
+
+    def __init__(self, state):
+        self.state = state
+
+
 class VC:
     """Runtime of the hooks for ONE path.  `decisions` is the prefix of branch decisions to
     replay; new symbolic branches extend it with True first."""
@@ -544,6 +551,13 @@ class VC:
             return self.decide(t.z)
         return t
 
+    def iter(self, iterable, lineno, frame_locals):
+        """frame_locals: snapshot of the enclosing frame's locals at loop entry (the mutable objects in it are the live ones)"""
+        ctl = self.e.loop_controllers.get(lineno)
+        if ctl is None:
+            return iterable
+        return ctl(self, iterable, frame_locals)
+
     def boolop(self, op, *thunks):
         v = None
         for th in thunks:
@@ -671,6 +685,12 @@ class Instrument(ast.NodeTransformer):
         n.ifs = [_hook("truth", t) for t in n.ifs]
         return n
 
+    def visit_For(self, n):
+        # `for x in IT:` -> `for x in __vc__.iter(IT, <line>, <locals thunk>)`: a contract may cut the loop at an invariant (loop controller)
+        self.generic_visit(n)
+        n.iter = _hook("iter", n.iter, ast.Constant(n.lineno), ast.Call(func=ast.Name(id="locals", ctx=ast.Load()), args=[], keywords=[]))
+        return n
+
 
 class Engine:
     """Holds the instrumented-function cache, the models and the contract table."""
@@ -684,6 +704,7 @@ class Engine:
         self.prefix = prefix
         self.instrumented = []   # source_info of every function actually executed through hooks
         self.inline_only = set()
+        self.loop_controllers = {}   # source line of a `for` -> controller(vc, iterable, locals_thunk) returning the iterable to use
 
     def instr(self, f):
         if isinstance(f, types.MethodType):
@@ -747,7 +768,12 @@ class Engine:
             g["__vc_cls__"] = real_cls
         loc = {}
         exec(compile(mod, "<vc:" + (inspect.getsourcefile(f) or "?") + ">", "exec"), g, loc)
-        nf = loc[owner].__dict__[fd.name] if owner else loc[fd.name]
+        if owner:
+            cd = loc[owner].__dict__
+            mangled = f"_{owner.lstrip('_')}{fd.name}" if fd.name.startswith("__") and not fd.name.endswith("__") else fd.name
+            nf = cd[fd.name] if fd.name in cd else cd[mangled]
+        else:
+            nf = loc[fd.name]
         if f.__defaults__ is not None:
             nf.__defaults__ = f.__defaults__      # the very same default objects (frame clauses see them)
         if f.__kwdefaults__:
@@ -775,6 +801,8 @@ class Engine:
                     raise
                 except RecursionError:
                     raise
+                except LoopCut as lc:
+                    out = ("loopcut", lc.state)
                 except Exception as ex:  # the function's own exception: an outcome
                     out = ("raise", ex)
             finally:
